@@ -145,7 +145,18 @@ func extractTok(m *wire.MsgMerkleBlock) string {
 	if root != nil {
 		r = hx(root[:])
 	}
-	return r + "/" + hashList(pb.GetMatches()) + "/" + u32List(pb.GetItems()) + "/" + b2s(pb.BadTree())
+	first := r + "/" + hashList(pb.GetMatches()) + "/" + u32List(pb.GetItems()) + "/" + b2s(pb.BadTree())
+	// extraction is a function of the message: a second call on the same object must give the same answer
+	root2 := pb.ExtractMatches()
+	r2 := "nil"
+	if root2 != nil {
+		r2 = hx(root2[:])
+	}
+	second := r2 + "/" + hashList(pb.GetMatches()) + "/" + u32List(pb.GetItems()) + "/" + b2s(pb.BadTree())
+	if second == first {
+		return first + "/same"
+	}
+	return first + "/again:" + second
 }
 
 func synthTx(salt uint32, i int) *wire.MsgTx {
@@ -262,7 +273,21 @@ func execBloom(c Case) string {
 			}
 		}
 		m, idx := merkleblock.NewMerkleBlockWithTxnSet(bchutil.NewBlock(blk), set)
-		return "EXT " + strings.Join(leaves, ",") + " RES " + mmsgTok(m) + " " + u32List(idx) + " " + extractTok(m)
+		res := mmsgTok(m) + " " + u32List(idx) + " " + extractTok(m)
+		// a proof that was handed out stays what it was while later proofs are built (other subsets, other blocks)
+		var none []*chainhash.Hash
+		all := []*chainhash.Hash{}
+		for _, t := range blk.Transactions {
+			h := t.TxHash()
+			all = append(all, &h)
+		}
+		merkleblock.NewMerkleBlockWithTxnSet(bchutil.NewBlock(blk), all)
+		merkleblock.NewMerkleBlockWithTxnSet(bchutil.NewBlock(blk), none)
+		merkleblock.NewMerkleBlockWithTxnSet(bchutil.NewBlock(synthBlock(n+5, salt+1, false)), all)
+		if again := mmsgTok(m) + " " + u32List(idx) + " " + extractTok(m); again != res {
+			return "EXT " + strings.Join(leaves, ",") + " RES " + res + " LATER " + again
+		}
+		return "EXT " + strings.Join(leaves, ",") + " RES " + res
 	case "ex": // ex <numTx> <hashes> <flags>
 		m := wire.MsgMerkleBlock{Transactions: uint32(atou(a[0])), Flags: unhx(a[2])}
 		for _, t := range splitOr(a[1], ",") {
@@ -665,6 +690,35 @@ func directedBlocks(r *Rng, tier string, e func(op, cls string, args ...string))
 				}
 			}
 		}
+	}
+	// directed: a child listed BEFORE its parent with many filter updates in between (N watched transactions whose
+	// matched output adds an outpoint each); N around the wrap-around points of small counters
+	ns := []int{254, 255, 256}
+	if tier == "thorough" {
+		ns = []int{1, 2, 126, 127, 128, 253, 254, 255, 256, 257, 509, 510, 511, 512, 765}
+	}
+	for _, n := range ns {
+		key := r.Bytes(33)
+		key[0] = 2
+		parent := wire.NewMsgTx(1)
+		parent.AddTxIn(wire.NewTxIn(&wire.OutPoint{Hash: *mkHash(r.Bytes(32)), Index: 7}, pushOnly(r.Bytes(70))))
+		parent.AddTxOut(wire.NewTxOut(0, p2pk(key), wire.TokenData{}))
+		ph := parent.TxHash()
+		child := wire.NewMsgTx(1)
+		child.AddTxIn(wire.NewTxIn(&wire.OutPoint{Hash: ph, Index: 0}, pushOnly(r.Bytes(71))))
+		child.AddTxOut(wire.NewTxOut(0, p2pkh(r.Bytes(20)), wire.TokenData{}))
+		txs := []*wire.MsgTx{child}
+		for i := 0; i < n; i++ {
+			fl := wire.NewMsgTx(1)
+			fl.AddTxIn(wire.NewTxIn(&wire.OutPoint{Hash: *mkHash(r.Bytes(32)), Index: 3}, pushOnly(r.Bytes(70))))
+			fl.AddTxOut(wire.NewTxOut(0, p2pk(key), wire.TokenData{}))
+			txs = append(txs, fl)
+		}
+		txs = append(txs, parent)
+		f := bloom.LoadFilter(wire.NewMsgFilterLoad(make([]byte, 8192), 3, uint32(r.U64()), wire.BloomUpdateAll))
+		f.Add(key)
+		fa := []string{hx(f.MsgFilterLoad().Filter), "3", u64s(uint64(f.MsgFilterLoad().Tweak)), "1"}
+		e("blk", "manyupdates:"+itoa(n), fa[0], fa[1], fa[2], fa[3], fmtTxs(txs))
 	}
 }
 
